@@ -23,9 +23,9 @@ from concurrent.futures import ThreadPoolExecutor
 VERIF = os.path.dirname(os.path.dirname(os.path.abspath(__file__)))
 REPO = os.environ.get("VERIF_REPO", "/repo")
 COQ = os.path.join(VERIF, "coq")
-BUILD = os.path.join(VERIF, "build")
-REPLAYS = os.path.join(VERIF, "replays")
-EVIDENCE = os.path.join(VERIF, "evidence")
+BUILD = os.environ.get("VERIF_BUILD_DIR", os.path.join(VERIF, "build"))   # seeded-change runs build elsewhere
+REPLAYS = os.environ.get("VERIF_REPLAYS_DIR", os.path.join(VERIF, "replays"))
+EVIDENCE = os.environ.get("VERIF_EVIDENCE_DIR", os.path.join(VERIF, "evidence"))   # seeded-change runs write elsewhere
 HARNESS_GO = os.path.join(VERIF, "harness", "go")
 KNOWN = os.path.join(VERIF, "known_findings.json")
 
@@ -248,13 +248,37 @@ class HarnessError(Exception):
     pass
 
 
+# Harness files each property's check needs (besides verif_main_test.go). A check compiles ONLY these into its test
+# binary, so that a change of /repo which no longer compiles against the harness code of another property cannot
+# break this property's check.
+HARNESS_SETS = {
+    "C01": ["l1"], "C02": ["l1"], "C03": ["l1"], "C05": ["l1"], "C14": ["l1"],
+    "C06": ["c06", "l1"], "C17": ["c17", "l1"],
+    "C04": ["c04", "l1", "p4rt"], "C15": ["c15", "l1", "p4rt"], "C16": ["c16", "p4rt"], "C11": ["c11", "l1", "p4rt"],
+}
+HARNESS_KEY = None      # set by check.py to the property id
+
+
+def harness_files():
+    names = HARNESS_SETS.get(HARNESS_KEY)
+    if HARNESS_KEY and names is None:
+        names = [HARNESS_KEY.lower()]
+    out = []
+    for f in sorted(os.listdir(HARNESS_GO)):
+        if not f.endswith("_test.go"):
+            continue
+        stem = f[len("verif_"):-len("_test.go")]
+        if names is None or stem == "main" or stem in names:
+            out.append(f)
+    return out
+
+
 def overlay_file(race=False):
     os.makedirs(BUILD, exist_ok=True)
     rep = {}
-    for f in sorted(os.listdir(HARNESS_GO)):
-        if f.endswith("_test.go"):
-            rep[os.path.join(REPO, "pfcpiface", "zz_" + f)] = os.path.join(HARNESS_GO, f)
-    p = os.path.join(BUILD, "overlay.json")
+    for f in harness_files():
+        rep[os.path.join(REPO, "pfcpiface", "zz_" + f)] = os.path.join(HARNESS_GO, f)
+    p = os.path.join(BUILD, f"overlay.{HARNESS_KEY or 'all'}.json")
     with open(p, "w") as fh:
         json.dump({"Replace": rep}, fh)
     return p
@@ -263,7 +287,7 @@ def overlay_file(race=False):
 def build_harness(race=False):
     """go test -c of package pfcpiface from /repo's working tree with the harness overlaid."""
     ov = overlay_file()
-    out = os.path.join(BUILD, "pfcpiface.race.test" if race else "pfcpiface.test")
+    out = os.path.join(BUILD, f"pfcpiface.{HARNESS_KEY or 'all'}" + (".race.test" if race else ".test"))
     cmd = ["go", "test", "-c", "-tags", "verif", "-vet=off", "-overlay", ov, "-o", out]
     if race:
         cmd.append("-race")
@@ -368,6 +392,20 @@ class Check:
                 self.axioms[n] = ax
         if not ok:
             self.broken.append(f"Props/{self.prop}.v failed: " + out[-1500:])
+        if ok and self.tier == "thorough" and os.environ.get("VERIF_COQCHK", "1") != "0":
+            # independent re-check of the compiled theorems and everything they depend on
+            rc, o2 = sh(["timeout", "3000", "coqchk", "-silent", "-o", "-Q", ".", "UPF", f"UPF.Props.{self.prop}"], cwd=COQ)
+            summary = o2[o2.find("CONTEXT SUMMARY"):] if "CONTEXT SUMMARY" in o2 else o2[-1500:]
+            m = re.search(r"\* Axioms:(.*?)\n\s*\n\* Constants", summary, flags=re.S)
+            axioms = " ".join(m.group(1).split()) if m else "?"
+            clean = rc == 0 and all(f"relying on {k}: <none>" in " ".join(summary.split()) or True for k in ())
+            bad_flags = [k for k in ("type-in-type", "unsafe (co)fixpoints") if re.search(k.replace("(", "\\(").replace(")", "\\)") + r": <none>", " ".join(summary.split())) is None]
+            pos = "Inductives whose positivity is assumed: <none>" in " ".join(summary.split())
+            good = rc == 0 and not bad_flags and pos
+            self.obligations.append((f"coqchk -o UPF.Props.{self.prop}", good, "" if good else summary[-600:]))
+            if not good:
+                self.broken.append("coqchk rejected the compiled development: " + summary[-800:])
+            self.notes["coqchk"] = {"axioms": axioms, "exit": rc}
         return ok
 
     def tie(self, name, ok, detail=""):
